@@ -278,8 +278,14 @@ def main():
             coverage["race_detector"] = race_info
         ev = dict(property_id=prop, tier=tier, seed=seed, level=cfg["level"], coverage=coverage,
                   assumptions=cfg.get("assumptions", []), wall_s=round(wall, 2), violations=len(unlisted))
-        os.makedirs(os.path.join(ROOT, "evidence"), exist_ok=True)
-        with open(os.path.join(ROOT, "evidence", prop + ".json"), "w") as f:
+        # evidence describes runs against /repo itself; a run against another checkout (VERIF_REPO: seeded worktrees,
+        # snapshots) writes its evidence next to that checkout's scratch instead of replacing the committed file
+        evdir = os.path.join(ROOT, "evidence")
+        alt_repo = os.environ.get("VERIF_REPO")
+        if alt_repo and os.path.abspath(alt_repo) != "/repo":
+            evdir = os.path.join(os.environ.get("VERIF_SCRATCH", "/var/tmp"), "verif-evidence-" + hashlib.md5(alt_repo.encode()).hexdigest()[:8])
+        os.makedirs(evdir, exist_ok=True)
+        with open(os.path.join(evdir, prop + ".json"), "w") as f:
             json.dump(ev, f, indent=1, sort_keys=True, default=str)
 
         # ---- report
